@@ -138,7 +138,7 @@ class C14(runner.Check):
             pool.unmark()
             return st.pack()
         ok2 = self._extend(st, [prefix[0]], prefix[1], src, seen, frontier, check=True)
-        cap = 3000 if tier == "quick" else 40000
+        cap = 3000 if tier == "quick" else 5000
         while frontier:
             hist = frontier.pop(0)
             if len(hist) >= depth:
